@@ -9,19 +9,22 @@ RULE = ("model sets = corpus/exp + FK-shaped generator (several FKs to one table
         "with identifier shapes (Rust/Python reserved words, leading digits, mixed case, non-ASCII) + a systematic name-shape stream: 70 shapes "
         "(leading / trailing / double `_` and `-`, separator followed by a digit, digits only, mixed case, Rust and Python keywords, non-ASCII, "
         "empty after sanitising) each used as enum label (string and integer enum), enum name, column name, table name and FK column stem; "
-        "every table is rendered for the 3 ORMs; "
+        "+ a systematic default stream: 50 default spellings (function calls, bare expressions, booleans, every f64 spelling, quoted literals "
+        "incl. quoted literals containing `(` / `)`, unquoted text), each alone in its table, next to a now() column and next to a "
+        "CURRENT_TIMESTAMP column, plus typed bool / integer / float defaults; every table is rendered for the 3 ORMs; "
         "non-trivial = distinct (by hash of the models) set with >= 2 tables and >= 1 foreign key")
 
 # which classifier may explain which failure kind of which ORM
 PY_EXPLAINS = {
     "syntax": ["py_ident", "py_text", "py_empty_import"],
     "dup-member": ["py_dup"], "dup-class": ["py_dup"],
-    "unresolved-name": ["py_sqlmodel_text", "py_dup"],
+    "unresolved-name": ["py_sqlmodel_text", "py_sqlmodel_float_word", "py_dup"],
     "column-count": ["py_dup", "py_ident"], "extra-attribute": ["py_dup", "py_ident"],
 }
 FINDING_OF = {"clash": "C17-seaorm-member-clash", "py_ident": "C17-py-invalid-identifier", "py_dup": "C17-py-duplicate-definition",
               "py_empty_import": "C17-py-empty-sqlalchemy-import", "py_text": "C17-py-unescaped-text",
-              "py_sqlmodel_text": "C17-py-sqlmodel-text-import", "rust_ident": "C17-seaorm-invalid-identifier"}
+              "py_sqlmodel_text": "C17-py-sqlmodel-text-import", "rust_ident": "C17-seaorm-invalid-identifier",
+              "py_sqlmodel_float_word": "C17-py-sqlmodel-float-word"}
 
 
 def verdict(chk, run, tier, seed):
@@ -36,7 +39,7 @@ def verdict(chk, run, tier, seed):
         return bool(c and table < len(c) and CLASS_IDX[name] < len(c[table]) and c[table][CLASS_IDX[name]])
 
     broken = []
-    rel = {i: [c for c in codes if c % 10 in (1, 4, 9)] for i, codes in exp["mismatches"].items()}
+    rel = {i: [c for c in codes if c % 10 in (1, 2, 3, 4, 5, 9)] for i, codes in exp["mismatches"].items()}
     rel = {i: c for i, c in rel.items() if c}
     if rel or exp["errors"]:
         first = sorted(rel.items(), key=lambda kv: int(kv[0]))[:1]
@@ -44,7 +47,8 @@ def verdict(chk, run, tier, seed):
         if first:
             i, codes = int(first[0][0]), first[0][1]
             payload["first_differing_case"] = exprun.input_of(run, i, codes[0] // 10)
-            payload["subchecks"] = sorted({{1: "K-exp(seaorm declarations)", 4: "K-exp(python class name)", 9: "shape"}[c % 10] for c in codes})
+            payload["subchecks"] = sorted({{1: "K-exp(seaorm declarations)", 2: "K-exp(sqlalchemy import block)", 3: "K-exp(sqlmodel import block)", 4: "K-exp(python class name)",
+                                          5: "K-exp(sqlmodel columns that use text(...))", 9: "shape"}[c % 10] for c in codes})
         broken.append(("correspondence:K-exp", payload))
     # ---- O-C17 on the SeaORM declarations parsed from the implementation's text
     failing = []       # (case, table, orm, kinds, detail, explaining classifiers)
@@ -68,7 +72,7 @@ def verdict(chk, run, tier, seed):
         if f["orm"] != "sqlalchemy":
             expl = [c for c in expl if c != "py_empty_import"]
         if f["orm"] != "sqlmodel":
-            expl = [c for c in expl if c != "py_sqlmodel_text"]
+            expl = [c for c in expl if c not in ("py_sqlmodel_text", "py_sqlmodel_float_word")]
         failing.append((f["case"], f["table"], f["orm"], kinds, f["failures"][:3], expl))
     known_hits, unexplained = collections.Counter(), []
     for (case, table, orm, kinds, detail, expl) in failing:
@@ -106,7 +110,7 @@ def verdict(chk, run, tier, seed):
     chk.cov["distribution"] = dict(exprun.distribution(run), python_modules_parsed=py["checked"],
                                    failure_kinds=dict(collections.Counter(k for f in failing for k in f[3])))
     chk.cov["traces_validated_against_impl"] = n_tables
-    chk.cov["correspondences"] = {"K-exp(seaorm declarations, python class name)": {"cases": n_tables, "mismatches": len(rel)}}
+    chk.cov["correspondences"] = {"K-exp(seaorm declarations, python class name, import blocks, sqlmodel text columns)": {"cases": n_tables, "mismatches": len(rel)}}
     outside = sum(1 for o in obs for j, _ in enumerate(o["tables"]) if not cls(o["idx"], j, "clash"))
     closed = sum(1 for o in obs for j, _ in enumerate(o["tables"]) if cls(o["idx"], j, "fk_closed"))
     chk.cov["theorem_coverage"] = {"tables": n_tables, "known_C17_clash=false (members_distinct_outside_known applies)": outside,
